@@ -113,8 +113,17 @@ func (i *Interp) pinFrom(c *Term) {
 	}
 }
 
+// decideKnown is decide for a condition whose two sides are known to be feasible (sym.Choose).
+func (i *Interp) decideKnown(c *Term) bool {
+	return i.decide2(c, true)
+}
+
 // decide resolves a symbolic branch condition on the current path.
 func (i *Interp) decide(c *Term) bool {
+	return i.decide2(c, false)
+}
+
+func (i *Interp) decide2(c *Term, bothFeasible bool) bool {
 	c = i.simp(c)
 	if c.IsTrue() {
 		return true
@@ -147,6 +156,12 @@ func (i *Interp) decide(c *Term) bool {
 		panic(pathEnd{kind: "budget", msg: "decision depth exceeded"})
 	}
 	d := Decision{Cond: c}
+	if bothFeasible {
+		d.Taken, d.Done = true, false
+		ps.trace = append(ps.trace, d)
+		i.assertPC(c)
+		return true
+	}
 	r1 := i.feasible(c)
 	if r1 == Unknown {
 		ps.inconcl = append(ps.inconcl, "solver unknown on branch at "+i.where())
